@@ -508,7 +508,7 @@ impl MockCluster {
             let want = match self.shared.st.lock().unwrap().topo.nodes[i].shards {
                 ShardMode::None => 1,
                 ShardMode::Fixed(..) => 1,
-                ShardMode::ByPort(k, _) => k as usize,
+                ShardMode::ByPort(k, _) | ShardMode::ByPortShifted(k, _) => k as usize,
             };
             self.live_shards(i).len() >= want
         })
@@ -648,6 +648,7 @@ fn spawn_listener(shared: Arc<Shared>, node: usize, listener: TcpListener, port:
                     ShardMode::None => None,
                     ShardMode::Fixed(s, n, m) => Some((s, n, m)),
                     ShardMode::ByPort(n, m) => Some((peer.port() % n, n, m)),
+                    ShardMode::ByPortShifted(n, m) => Some(((peer.port() as u32 + 1) as u16 % n, n, m)),
                 };
                 let conn = st.conns[node].len();
                 let kill = Arc::new(Notify::new());
